@@ -1,6 +1,6 @@
 (* EstRun.v — run commands of the `formats` family (drivers only). *)
 From Coq Require Import String.
-From Cedar Require Export Codec Est.
+From Cedar Require Export Codec EstPolicy.
 Open Scope string_scope.
 
 Fixpoint d_json (s : sexp) : option json :=
@@ -91,7 +91,47 @@ Definition run_est_conditions (args : list sexp) : sexp :=
   | _ => bad_input
   end.
 
+Definition e_eref (r : eref) : sexp := match r with RefSlot => SY "slot" | RefUid u => e_uid u end.
+Definition e_prconstraint (c : prconstraint) : sexp :=
+  match c with
+  | CAny => SY "any"
+  | CEq r => SL [SY "eq"; e_eref r]
+  | CIn r => SL [SY "in"; e_eref r]
+  | CIs t => SL [SY "is"; e_name t]
+  | CIsIn t r => SL [SY "isin"; e_name t; e_eref r]
+  end.
+Definition e_aconstraint (c : aconstraint) : sexp :=
+  match c with
+  | AAny => SY "any"
+  | AEq u => SL [SY "eq"; e_uid u]
+  | AIn us => SL [SY "in"; e_list e_uid us]
+  end.
+Definition e_effect (e : effect) : sexp := SY (match e with Permit => "permit" | Forbid => "forbid" end).
+Definition e_template (t : template) : sexp :=
+  SL [SY "template"; SS (tid t); e_list (fun kv => SL [SS (fst kv); SS (snd kv)]) (tannot t);
+      e_effect (teffect t); e_prconstraint (tprincipal t); e_aconstraint (taction t);
+      e_prconstraint (tresource t); e_opt e_expr (tbody t)].
+
+(* (template_to_est <template>) *)
+Definition run_template_to_est (args : list sexp) : sexp :=
+  match args with
+  | [t] => match d_template t with Some t => e_json (template_to_est t) | None => bad_input end
+  | _ => bad_input
+  end.
+
+(* (est_to_template <id> <json>) *)
+Definition run_est_to_template (args : list sexp) : sexp :=
+  match args with
+  | [SS id; j] => match d_json j with
+                  | Some j => e_res e_template (est_to_template id j)
+                  | None => bad_input
+                  end
+  | _ => bad_input
+  end.
+
 Definition run_formats (cmd : string) (args : list sexp) : option sexp :=
   if sym_eqb cmd "est_of_body" then Some (run_est_of_body args)
   else if sym_eqb cmd "est_conditions" then Some (run_est_conditions args)
+  else if sym_eqb cmd "template_to_est" then Some (run_template_to_est args)
+  else if sym_eqb cmd "est_to_template" then Some (run_est_to_template args)
   else None.
